@@ -21,6 +21,8 @@ from common import Coverage, Driver, rng, shrink_list, violation
 
 # --------------------------------------------------------------------------- events
 IP_ALPHA = ["S1.0", "S1025.0", "N", "R0", "F1", "C", "X", "T", "D", "RC", "O0", "N+N@10"]
+# session establishment through the real code: genuine reconnects, reconnects against a replaying peer, old-session frames
+SESS = {"ip": ["S1.0", "N", "RR", "RC", "R0", "O0", "D"], "coap": ["S1.0", "N", "N4", "RR", "RC", "R0", "O0"]}
 # IP read segmentation: one TCP read = k complete frames + a prefix of the next (1 byte, 2 bytes, 10 bytes, all but
 # the last byte of the tag), the rest in a second read; replays / corrupted frames glued behind complete frames
 IP_SEG = ["S1.0", "N", "R0", "N@1", "N+N", "N+N@1", "N+N@2", "N+N@10", "N+N@-1", "N+R0@10", "N+C@2", "N+N+N@2"]
@@ -34,7 +36,7 @@ CORE = {"ip": ["S1.0", "N", "R0", "F1", "C", "X", "RC"],
 COAP_EVT = ["EN", "EU", "EL0", "EL1", "ER0", "ER1", "EC"]     # event channel incl. processing failures
 # BLE GATT faults: write of fragment j refused with the link staying up (W) / dropping (V), read errors (T, TB, D)
 # CoAP subscriptions on ONE live session: subscribe / unsubscribe-everything (each with its response), events, replays
-COAP_SUBS = ["SUB+N", "UNS+N", "EN", "ER0", "ER1", "EC", "SUB"]
+COAP_SUBS = ["SUB+N", "UNS+N", "EN", "ER0", "SUB"]
 BLE_FAULT = ["S1.0", "S30.1", "N", "W1.0.0", "W30.1.0", "W30.1.1", "V30.1.0", "TB", "D", "RC", "X"]
 
 
@@ -43,7 +45,7 @@ def parse_ev(t):
         # glued delivery (read segmentation): sub-events joined by "+", "@c" = the read is cut c bytes into the last frame
         body, _, cut = t.partition("@")
         return ("G", [parse_ev(x) for x in body.split("+")], int(cut) if cut else 0)
-    if t in ("N", "C", "X", "T", "TB", "D", "RC", "RD", "RR", "SUB", "UNS", "EN", "EC", "EM", "EU"):
+    if t in ("N", "N4", "C", "X", "T", "TB", "D", "RC", "RD", "RR", "SUB", "UNS", "EN", "EC", "EM", "EU"):
         return (t, 0, 0)
     if t.startswith("EL"):
         return ("EL", int(t[2:]), 0)
@@ -62,7 +64,7 @@ def parse_ev(t):
     raise ValueError(t)
 
 
-def model_tokens(h):
+def model_tokens(h, transport="ble"):
     """The model is frame-granular: a glued / cut delivery is the sequence of its frames."""
     out = []
     for t in h:
@@ -78,11 +80,11 @@ def model_tokens(h):
             subscribed = False
             res.append("S1.0")           # CoAPPairing.unsubscribe always sends the request
         else:
-            res.append(MODEL_TOKEN(t))
+            res.append(MODEL_TOKEN(t, transport))
     return res
 
 
-def MODEL_TOKEN(t):
+def MODEL_TOKEN(t, transport="ble"):
     """Harness-only variants of one model event: how a read fails (TB: BleakError, T: TimeoutError), whether the
     link drops with a refused write (V) or stays up (W), and how a CoAP event is processed after it was
     decrypted (EM: two entries; EU: undecodable 2nd value; EL<j>: the listener raises at entry j) - processing
@@ -90,7 +92,9 @@ def MODEL_TOKEN(t):
     if t == "TB":
         return "T"
     if t == "RR":
-        return "D"        # BLE: reconnect against a replaying peer = the link dropped and no session came up
+        # reconnect against a peer replaying a recorded pair-verify: BLE - the link dropped and no session came up;
+        # IP / CoAP - the attempt fails and the connector goes on to set up a genuine new session
+        return "D" if transport == "ble" else "RC"
     if t[0] == "V":
         return "W" + t[1:]
     if t in ("EM", "EU") or t.startswith("EL"):
@@ -583,13 +587,10 @@ class IpRun:
                 t.cancel()
                 settle(self.loop)
                 raise RuntimeError("IP connect did not complete")
-            if replay:
-                t.exception()
-            else:
-                t.result()
+            ok = t.exception() is None if replay else (t.result(), True)[1]
         finally:
             ipc.aiohappyeyeballs.start_connection = saved
-        return type(self.conn.protocol).__name__ == "SecureHomeKitProtocol"
+        return ok and type(self.conn.protocol).__name__ == "SecureHomeKitProtocol"
 
     def adopt(self):
         self.proto, self.tr = self.conn.protocol, self.conn.transport
@@ -602,6 +603,10 @@ class IpRun:
         from ref.c06acc import session_keys
         if not self.connect():
             raise RuntimeError("genuine pair-verify did not produce a secure session")
+        if self.peer.new_secret is None:
+            # a secure session came up although the accessory never completed a pair-verify: the keys cannot be new
+            self.sessions.append("unverified")
+            return self.adopt()
         c2a, a2c = session_keys(self.peer.new_secret)          # the accessory derives ITS keys itself
         self.acc_epoch = self.n_acc
         self.n_acc += 1
@@ -1029,60 +1034,126 @@ class BleRun:
 
 # --------------------------------------------------------------------------- CoAP
 class StubCoap:
+    """Stands in for the aiocoap context of one session: pair-verify requests (uri path /2) are answered at once by
+    the pair-verify peer, encrypted requests wait for the history to supply a response."""
+
     def __init__(self, run):
         self.run = run
         self.waiter = None
         self.down = False
 
     def request(self, msg):
+        if tuple(msg.opt.uri_path) == ("2",):
+            from aiocoap.numbers.codes import Code
+            fut = self.run.loop.create_future()
+            fut.set_result(types.SimpleNamespace(code=Code.CHANGED, payload=self.run.peer.handle(bytes(msg.payload))))
+            return types.SimpleNamespace(response=fut)
         TRACE.wire(bytes(msg.payload))
         self.waiter = self.run.loop.create_future()
         return types.SimpleNamespace(response=self.waiter)
 
     async def shutdown(self):
+        from aiocoap.error import NetworkError
         self.down = True
+        if self.waiter is not None and not self.waiter.done():
+            self.waiter.set_exception(NetworkError("context shut down"))
 
 
 class CoapRun:
+    """One long-lived real CoAPHomeKitConnection (owned by a real CoAPPairing object built without its constructor).
+    Every session is set up by the real do_pair_verify: get_session_keys against the reference accessory over the
+    stub context (seams: aiocoap Context.create_server_context, and the ChaCha20Poly1305 name of coap/connection.py
+    bound to a logging AEAD), real derivation of the Control-Read / Control-Write / Event keys, real
+    EncryptionContext.  Session keys are identified by their BYTES and by the slot they end up in."""
+
     def __init__(self):
         import aiohomekit.controller.coap.connection as cc
+        import aiohomekit.controller.coap.pairing as cp
         self.cc = cc
         self.loop = get_loop()
         self.reqs = Requests(self.loop)
+        self.peer = PvPeer()
         self.epoch = -1
+        self.acc_epoch = -1
+        self.n_acc = 0
         self.acc = {}
         self.cache = {}
-        self.old_cache = {}
         self.got_events = []
-        self.pairing = None
+        self.sessions = []
+        self.stub = None
+
+        async def connected():
+            return None
+        self.pairing = object.__new__(cp.CoAPPairing)
+        self.pairing.subscriptions = set()
+        self.pairing._ensure_connected = connected
+        self.pairing.event_received = self._listener
+        self.conn = cc.CoAPHomeKitConnection(self.pairing, "fe80::1", 5683)
+        self.conn.info = types.SimpleNamespace(find_characteristic_by_iid=lambda iid: None)
+        self.pairing.connection = self.conn
         self.new_session()
 
-    def new_session(self):
-        self.epoch += 1
-        e = self.epoch
-        ka, kc, ke = TRACE.register(e, "a"), TRACE.register(e, "c"), TRACE.register(e, "e")
-        self.acc[e] = (aead(ka), aead(ke))
-        self.stub = StubCoap(self)
-        self.ctx = self.cc.EncryptionContext(LoggedAead(ka), LoggedAead(kc), LoggedAead(ke), "coap://[fe80::1]:5683/", self.stub)
-        if self.pairing is None:
-            # a real CoAPHomeKitConnection owned by a real CoAPPairing object (built without its constructor: no
-            # controller / zeroconf), so that subscribe / unsubscribe run CoAPPairing.subscribe -> AbstractPairing.subscribe
-            # -> CoAPHomeKitConnection.subscribe_to -> EncryptionContext.post_all on the live session
-            import aiohomekit.controller.coap.pairing as cp
+    def connect(self, replay=False):
+        cc = self.cc
 
-            async def connected():
-                return None
-            self.pairing = object.__new__(cp.CoAPPairing)
-            self.pairing.subscriptions = set()
-            self.pairing._ensure_connected = connected
-            self.pairing.event_received = self._listener
-            self.conn = self.cc.CoAPHomeKitConnection(self.pairing, "fe80::1", 5683)
-            self.conn.info = types.SimpleNamespace(find_characteristic_by_iid=lambda iid: None)
-            self.pairing.connection = self.conn
-        self.conn.enc_ctx = self.ctx          # what do_pair_verify installs
+        async def create_server_context(root, bind=None):
+            self.stub = StubCoap(self)
+            return self.stub
+        saved = (cc.Context, cc.ChaCha20Poly1305)
+        cc.Context = types.SimpleNamespace(create_server_context=create_server_context)
+        cc.ChaCha20Poly1305 = LoggedAead
+        self.peer.begin(replay)
+        try:
+            t = self.loop.create_task(self.conn.do_pair_verify(pairing_data()))
+            settle(self.loop)
+            if not t.done():
+                t.cancel()
+                settle(self.loop)
+                raise RuntimeError("CoAP pair-verify did not complete")
+            ok = t.exception() is None if replay else (t.result(), True)[1]
+        finally:
+            cc.Context, cc.ChaCha20Poly1305 = saved
+        return ok and self.conn.enc_ctx is not None
+
+    def adopt(self):
+        self.ctx = self.conn.enc_ctx
+        for obj, d in ((self.ctx.recv_ctx, "a"), (self.ctx.send_ctx, "c"), (self.ctx.event_ctx, "e")):
+            TRACE.session_key(obj.key, d)
+        self.epoch = TRACE.keys[self.ctx.send_ctx.key][0]
         self.res = self.cc.EventResource(self.conn)
         self.srv = self.esrv = 0
-        self.old_cache, self.cache = self.cache, {}
+
+    def new_session(self):
+        from ref.c06acc import event_key, session_keys
+        if not self.connect():
+            raise RuntimeError("genuine CoAP pair-verify did not produce a session")
+        if self.peer.new_secret is None:
+            self.sessions.append("unverified")
+            return self.adopt()
+        c2a, a2c = session_keys(self.peer.new_secret)          # the accessory derives ITS keys itself
+        self.acc_epoch = self.n_acc
+        self.n_acc += 1
+        self.acc[self.acc_epoch] = (aead(a2c), aead(event_key(self.peer.new_secret)))
+        self.peer.end(self.acc_epoch)
+        self.sessions.append("full")
+        self.adopt()
+
+    def replayed_session(self):
+        """'RR' on CoAP: do_pair_verify against an attacker replaying the recorded M2/M4.  The unchanged code rejects
+        it (the old session is shut down first, as always), and the pairing layer connects again, here to the genuine
+        accessory: the event is the model's Reconnect.  An accepted replay can only yield the recorded keys."""
+        if self.peer.recorded is None:
+            return self.new_session()
+        if self.connect(replay=True):
+            self.sessions.append("replayed")
+            self.acc_epoch = self.peer.recorded[1]
+            self.adopt()
+        else:
+            self.new_session()
+
+    @property
+    def old_cache(self):
+        return {(d, i): f for (e, d, i), f in self.cache.items() if e == self.acc_epoch - 1}
 
     def _listener(self, ev):
         """The pairing's event_received; may be scripted to raise at the j-th entry of the datagram being processed."""
@@ -1095,9 +1166,10 @@ class CoapRun:
     raise_at = None
 
     def frame(self, d, i, kind="EN"):
-        if (d, i) not in self.cache:
+        e = self.acc_epoch
+        if (e, d, i) not in self.cache:
             if d == "a":
-                body = b"%d.%d" % (self.epoch, i)      # a well-formed one-PDU response (tid 0, success), for post_all too
+                body = b"%d.%d" % (e, i)      # a well-formed one-PDU response (tid 0, success), for post_all too
                 pt = struct.pack("<BBBH", 0x02, 0, 0, len(body)) + body
             elif kind == "EN":
                 pt = struct.pack("<BHH", 0, i & 0xFFFF, 0)
@@ -1106,17 +1178,17 @@ class CoapRun:
                 pt = struct.pack("<BHH", 0, i & 0xFFFF, 0) + struct.pack("<BHH", 0, (i + 1000) & 0xFFFF, 3) + b"\x09\x01\x00"
             else:
                 pt = struct.pack("<BHH", 0, i & 0xFFFF, 0) + struct.pack("<BHH", 0, (i + 1000) & 0xFFFF, 0)
-            ct = self.acc[self.epoch][0 if d == "a" else 1].encrypt(nonce_bytes(i), pt, b"")
-            TRACE.frames[ct] = (self.epoch, d, i)
-            self.cache[(d, i)] = ct
-        return self.cache[(d, i)]
+            ct = self.acc[e][0 if d == "a" else 1].encrypt(nonce_bytes(i), pt, b"")
+            TRACE.frames[ct] = (e, d, i)
+            self.cache[(e, d, i)] = ct
+        return self.cache[(e, d, i)]
 
     def waiting(self):
         return self.stub.waiter is not None and not self.stub.waiter.done()
 
-    def respond(self, payload):
+    def respond(self, payload, not_found=False):
         from aiocoap.numbers.codes import Code
-        self.stub.waiter.set_result(types.SimpleNamespace(code=Code.CHANGED, payload=payload))
+        self.stub.waiter.set_result(types.SimpleNamespace(code=Code.NOT_FOUND if not_found else Code.CHANGED, payload=payload))
 
     def event(self, payload, raise_at=None):
         self.entries_seen, self.raise_at = 0, raise_at
@@ -1145,6 +1217,11 @@ class CoapRun:
                 t.result()
         elif k == "UNS":
             self.reqs.start(self.epoch, self.pairing.unsubscribe([(1, 10)]))
+        elif k == "N4":
+            if self.waiting():
+                i = self.srv
+                self.srv = i + 1
+                self.respond(self.frame("a", i), not_found=True)
         elif k in ("N", "R", "F", "C", "O"):
             if self.waiting():
                 if k == "C":
@@ -1153,11 +1230,12 @@ class CoapRun:
                     f[-1] ^= 1
                     self.respond(bytes(f))
                 elif k == "O":
-                    if self.epoch > 0:
-                        old = self.old_cache.get(("a", a))
+                    if self.acc_epoch > 0:
+                        old = self.cache.get((self.acc_epoch - 1, "a", a))
                         if old is None:
-                            old = self.acc[self.epoch - 1][0].encrypt(nonce_bytes(a), b"old", b"")
-                            TRACE.frames[old] = (self.epoch - 1, "a", a)
+                            old = self.acc[self.acc_epoch - 1][0].encrypt(nonce_bytes(a), b"old", b"")
+                            TRACE.frames[old] = (self.acc_epoch - 1, "a", a)
+                            self.cache[(self.acc_epoch - 1, "a", a)] = old
                         self.respond(old)
                 else:
                     i = self.srv if k == "N" else (a if k == "R" else self.srv + a)
@@ -1170,12 +1248,11 @@ class CoapRun:
         elif k == "T":
             if self.waiting():
                 self.stub.waiter.set_exception(NetworkError("timeout"))
-        elif k in ("RC", "RD"):
-            if self.waiting():
-                self.stub.waiter.set_exception(NetworkError("context shut down"))
-            settle(self.loop)
-            self.reqs.collect()
-            self.new_session()
+        elif k in ("RC", "RD", "RR"):
+            if k == "RR":
+                self.replayed_session()
+            else:
+                self.new_session()
         elif k in ("EN", "ER", "EF", "EM", "EU", "EL"):
             i = a if k == "ER" else (self.esrv + a if k == "EF" else self.esrv)
             self.esrv = max(self.esrv, i + 1)
@@ -1339,7 +1416,9 @@ def random_histories(transport, r, count, maxlen):
                 if transport == "ble":
                     kinds += ["TB", "W", "W", "V", "RR"]
                 if transport == "coap":
-                    kinds += ["SUB", "UNS", "SUB+N", "UNS+N"]
+                    kinds += ["SUB", "UNS", "SUB+N", "UNS+N", "N4", "RR"]
+                if transport == "ip":
+                    kinds += ["RR"]
                 k = r.choice(kinds)
                 if k == "S":
                     h.append(f"S{r.choice([0, 1, 30, 1024, 1025])}.{r.choice([0, 1])}")
@@ -1367,6 +1446,7 @@ DIRECTED = {
         SIX + ["S1.0", "R0", "S1.0", "R1"],                  # replay after the zero reset
         ["EN", "EN", "ER0", "EC", "ER1", "EN", "EF2", "EN"],
         # event processing fails after the datagram was decrypted (listener raises at the 2nd entry / bad 2nd value)
+        ["S1.0", "N", "S1.0", "N4", "S1.0", "S1.0", "N", "EN", "RC", "S1.0", "N"], ["S1.0", "S1.0", "N4", "R0", "RR", "S1.0", "N4"],
         ["EL1", "ER0", "EN"], ["EN", "EU", "ER1", "ER1", "EN"], ["EM", "EL0", "ER1", "ER0", "EN", "ER2"],
         # one session: subscribe, events, unsubscribe everything, subscribe again, replay the recorded events
         ["SUB", "N", "EN", "EN", "UNS", "N", "SUB", "N", "ER0", "ER1", "EN", "SUB", "UNS", "X", "SUB", "N"],
@@ -1378,6 +1458,8 @@ DIRECTED = {
         # read segmentation: frame 0 + 10 bytes of a replayed frame 0 in one read, the rest in the next
         ["S1.0", "N+R0@10"], ["N+R0@10", "N"], ["S1.0", "S1.0", "N+N@10", "N"], ["N+N+N@-1", "R1", "N@1", "N+C@2"],
         ["S1.0", "N@2", "RC", "S1.0", "N+O0@10", "N"],
+        # real session establishment: an attacker replays the recorded pair-verify on the next connection
+        ["S1.0", "N", "RR", "S1.0", "R0", "N", "RR", "S1.0", "O0"],
     ],
     "ble": [
         ["S30.1", "S1.0", "N", "N", "C", "S1.0", "RC", "S0.0", "X"],
@@ -1404,7 +1486,7 @@ XCHECK_RUN = {"ip": "i_log (ip_run ip_init", "ble": "b_log (ble_run ble_init", "
 
 def coq_event(t):
     """One token of a driver request as a Gallina [ev] (same grammar as ocaml/drv_c06.ml ev_of_tok)."""
-    simple = {"N": "Next", "C": "Corrupt", "X": "Cancel", "T": "Timeout", "D": "Disconnect", "RC": "Reconnect",
+    simple = {"N": "Next", "N4": "Next404", "C": "Corrupt", "X": "Cancel", "T": "Timeout", "D": "Disconnect", "RC": "Reconnect",
               "RD": "Reconnect", "EN": "ENext", "EC": "ECorrupt"}
     if t in simple:
         return simple[t]
@@ -1453,7 +1535,7 @@ def xcheck_pick(transport, hists, model, n_exh):
     import re
 
     def kinds(h):
-        return {re.match(r"[A-Z]+", t).group(0) for t in model_tokens(h)}
+        return {re.match(r"[A-Z]+", t).group(0) for t in model_tokens(h, transport)}
 
     def small(h):
         return 0 < len(h) <= 60 and len(re.findall(r"\d{4,}", " ".join(h))) <= 2
@@ -1471,7 +1553,7 @@ def xcheck_pick(transport, hists, model, n_exh):
         i = next((j for j in range(start, max(start - 200, -1), -1) if 0 <= j < len(hists) and small(hists[j]) and j not in picked), None)
         if i is not None:
             picked.append(i)
-    return [(transport + " " + " ".join(model_tokens(hists[i])), model[i]) for i in picked]
+    return [(transport + " " + " ".join(model_tokens(hists[i], transport)), model[i]) for i in picked]
 
 
 def vm_crosscheck(ctx, sample):
@@ -1581,12 +1663,14 @@ def run(ctx):
             hists += list(exhaustive(COAP_SUBS, core_depth))
         if transport == "ip":
             hists += list(exhaustive(IP_SEG, full_depth))
+        if transport in SESS:
+            hists += list(exhaustive(SESS[transport], full_depth))
         if transport == "ble":
             hists += list(exhaustive(BLE_FAULT, full_depth))
         n_core = len(hists) - n_full
         hists += DIRECTED[transport]
         hists += random_histories(transport, rng(seed, "c06" + transport), n_rand, 60)
-        model = drv.batch([transport + " " + " ".join(model_tokens(h)) for h in hists])
+        model = drv.batch([transport + " " + " ".join(model_tokens(h, transport)) for h in hists])
         impl = impl_batch(transport, hists, workers)
         xsample += xcheck_pick(transport, hists, model, n_full + n_core)
         counts[transport] = dict(exhaustive_full_alphabet=n_full, exhaustive_core_alphabet=n_core,
@@ -1627,7 +1711,7 @@ def run(ctx):
             if len(small) < len(h):
                 v["payload"]["history"] = small
                 v["payload"]["impl"] = run_impl(tr, small)[0]
-                v["payload"]["model"] = drv.batch([tr + " " + " ".join(model_tokens(small))])[0]
+                v["payload"]["model"] = drv.batch([tr + " " + " ".join(model_tokens(small, tr))])[0]
                 v["what"] = v["what"].split("; history ")[0] + "; history " + " ".join(small)
         out.append(v)
     if not ctx.get("replay"):
@@ -1638,13 +1722,16 @@ def run(ctx):
                                  False, broken="extraction / ocaml driver glue"))
     cov.extra["exhaustive"] = True
     cov.extra["exhaustive_part"] = (
-        "per transport: every history of length <= %d over its 12-symbol alphabet %s; every history of length %d over the "
+        "per transport: every history of length <= %d over its 11-13-symbol alphabet %s; every history of length %d over the "
         "7-symbol core %s; CoAP additionally every history of length %d over the event alphabet %s; IP additionally every "
         "history of length <= %d over the read-segmentation alphabet %s (a+b@c = frames glued into one TCP read that ends c "
         "bytes into the last frame, remainder in a second read); BLE additionally every history of length <= %d over the GATT "
         "fault alphabet %s (W/V n.cont.j = write of fragment j refused with the link up / dropping, TB/T/D read faults); CoAP "
-        "additionally every history of length <= %d over the subscription alphabet %s (real CoAPPairing.subscribe/unsubscribe on one session)"
-        % (full_depth, ALPHA, core_depth, CORE, core_depth, COAP_EVT, full_depth, IP_SEG, full_depth, BLE_FAULT, core_depth, COAP_SUBS))
+        "additionally every history of length <= %d over the subscription alphabet %s (real CoAPPairing.subscribe/unsubscribe on one session); "
+        "IP and CoAP additionally every history of length <= %d over the session alphabets %s (RR = reconnect against a peer replaying a "
+        "recorded pair-verify, N4 = 4.04 response)"
+        % (full_depth, ALPHA, core_depth, CORE, core_depth, COAP_EVT, full_depth, IP_SEG, full_depth, BLE_FAULT, core_depth, COAP_SUBS,
+           full_depth, SESS))
     cov.extra["case_counts"] = counts
     cov.extra["disagreements_checked"] = mismatches
     cov.extra["compared"] = "seal log, wire log, open attempts (nonce, success), accepted frame identities, per-request outcome class"
